@@ -441,6 +441,27 @@ func (w *Writer) AddMesh(model PolyformModel) (_ int, err error) {
 		return -1, nil // return -1 to signal that mesh was not added, but do not error out
 	}
 
+	// Every vector attribute becomes one entry of the primitive's attributes
+	// object: two attributes stored under the same glTF name can not both be
+	// referenced, and without any the indices have no vertices to refer to
+	attributeNames := make(map[string]bool)
+	for _, attributes := range [][]string{
+		model.Mesh.Float4Attributes(),
+		model.Mesh.Float3Attributes(),
+		model.Mesh.Float2Attributes(),
+	} {
+		for _, attribute := range attributes {
+			name := polyformToGLTFAttribute(attribute)
+			if attributeNames[name] {
+				return -1, fmt.Errorf("%w: model %q has more than one attribute stored as %s", ErrInvalidInput, model.Name, name)
+			}
+			attributeNames[name] = true
+		}
+	}
+	if len(attributeNames) == 0 {
+		return -1, nil // no vertex data to write, treated like an empty mesh
+	}
+
 	var matIndex *int
 	if model.Material != nil {
 		matIndex, err = w.AddMaterial(model.Material)
